@@ -35,7 +35,7 @@ PERIODS = [(1, 's'), (2, 's'), (500, 'ms'), (250, 'ms'), (100, 'ms'), (10, 'ms')
 
 PROF_OFF = Profile(un_temp=F.UN_PAST + ('eventually', 'always'), tbin=('since', 'until', 'unless'), max_depth=3, max_bound=5)
 PROF_PAST = Profile(un_temp=F.UN_PAST, bin_temp=F.BIN_PAST, tun=F.TUN_PAST, tbin=F.TBIN_PAST, max_depth=3, max_bound=5)
-PROF_ON = Profile(un_temp=F.UN_PAST, bin_temp=F.BIN_PAST, tbin=('since', 'until'), max_depth=3, max_bound=3, no_future_under_past=True)
+PROF_ON = Profile(un_temp=F.UN_PAST, bin_temp=F.BIN_PAST, tbin=('since', 'until'), max_depth=3, max_bound=3)
 
 
 def decimal_text(fr):
